@@ -1,6 +1,6 @@
 (* C16: the stateful parts -- repeated-metric counter vs the history predicate, set-once
    actions, the parameter list SetOptimizer builds, and the stop flag in the fit loop. *)
-From Coq Require Import ZArith List Bool Lia.
+From Coq Require Import String ZArith List Bool Lia.
 From ND.model Require Import Callbacks.
 From ND.proofs Require Import C16_pred.
 Import ListNotations.
@@ -111,14 +111,14 @@ Proof.
     + apply Z.leb_gt. lia.
 Qed.
 
-(* repeated_spec, FULL strength: for every history, every cached state, whenever evaluated *)
-Theorem repeated_spec : forall k tr n s v,
-  pairwise_of k = true ->
-  let h := hist_of tr v in
-  cond v (PRepeated k tr n s) = true <->
-  (forall i : nat, Z.of_nat i < n -> (S i < length h)%nat /\ rel_of k (nth i h 0) (nth (S i) h 0) = true).
+(* repeated_spec, FULL strength: for every history, every cached state, whenever evaluated, for
+   the loss and for every custom metric name whose series the lookup finds (h) *)
+Theorem repeated_spec : forall k tr mt n s v h,
+  pairwise_of k = true -> hist_of tr mt v = Some h ->
+  cond v (PRepeated k tr mt n s) = true <->
+  (forall i : nat, Z.of_nat i < n -> (S i < List.length h)%nat /\ rel_of k (nth i h 0) (nth (S i) h 0) = true).
 Proof.
-  intros k tr n s v Hp h. unfold cond. cbn [step fst]. fold h. rewrite leaf_fires.
+  intros k tr mt n s v h Hp Hh. unfold cond. cbn [step fst]. unfold hist_or_nil. rewrite Hh, leaf_fires.
   unfold doc_count. rewrite Hp, Z.leb_le. split.
   - intros H i Hi. apply (proj1 (streak_spec (rel_of k) 0 h (Z.to_nat n))); lia.
   - intros H. assert (Hs : (Z.to_nat n <= streak (rel_of k) h)%nat).
@@ -127,13 +127,12 @@ Proof.
 Qed.
 
 (* RepeatedMetricBelow / Above: the documented "on the required side for the latest n epochs" *)
-Theorem below_above_spec : forall k tr n s v,
-  pairwise_of k = false ->
-  let h := hist_of tr v in
-  cond v (PRepeated k tr n s) = true <->
-  (forall i : nat, Z.of_nat i < n -> (i < length h)%nat /\ val_of k (nth i h 0) = true).
+Theorem below_above_spec : forall k tr mt n s v h,
+  pairwise_of k = false -> hist_of tr mt v = Some h ->
+  cond v (PRepeated k tr mt n s) = true <->
+  (forall i : nat, Z.of_nat i < n -> (i < List.length h)%nat /\ val_of k (nth i h 0) = true).
 Proof.
-  intros k tr n s v Hp h. unfold cond. cbn [step fst]. fold h. rewrite leaf_fires.
+  intros k tr mt n s v h Hp Hh. unfold cond. cbn [step fst]. unfold hist_or_nil. rewrite Hh, leaf_fires.
   unfold doc_count. rewrite Hp, Z.leb_le. split.
   - intros H i Hi. apply (proj1 (streak1_spec (val_of k) 0 h (Z.to_nat n))); lia.
   - intros H. assert (Hs : (Z.to_nat n <= streak1 (val_of k) h)%nat).
@@ -141,13 +140,80 @@ Proof.
     lia.
 Qed.
 
+(* ---- which series is read: the one the solver records for that metric in that phase ------ *)
+
+Lemma partition_train : forall m, partition_us (String.append "train_" m) = ("train"%string, m).
+Proof. intros m. reflexivity. Qed.
+Lemma partition_valid : forall m, partition_us (String.append "valid_" m) = ("valid"%string, m).
+Proof. intros m. reflexivity. Qed.
+
+Lemma lookup_key_spec : forall d tr m,
+  lookup_key d (callback_key tr m) = if dict_has d (callback_key tr m) then callback_key tr m else solver_key tr m.
+Proof.
+  intros d tr m. unfold lookup_key. destruct (dict_has d (callback_key tr m)); [reflexivity|].
+  destruct tr; reflexivity.
+Qed.
+
+(* the loss: always the solver's '<phase>_loss' series *)
+Theorem metric_loss_spec : forall v tr, hist_of tr "loss" v = Some (if tr then v_train v else v_valid v).
+Proof. intros v tr. destruct tr; reflexivity. Qed.
+
+(* a custom metric: the solver's '<phase>__<name>' series, provided no recorded key is literally
+   '<phase>_<name>' (only possible for the name "loss" or a name "_x" beside a metric "x") *)
+Theorem metric_custom_spec : forall v tr m,
+  dict_has (store_of v) (callback_key tr m) = false ->
+  hist_of tr m v = dict_get (store_of v) (solver_key tr m).
+Proof.
+  intros v tr m H. unfold hist_of, metric_history. rewrite lookup_key_spec, H. reflexivity.
+Qed.
+
+(* the solver's series of a recorded custom metric (first entry with that name) *)
+Lemma custom_store_get : forall c tr m,
+  (forall k, In k (map fst c) -> String.eqb (solver_key (negb tr) k) (solver_key tr m) = false) ->
+  dict_get (custom_store c) (solver_key tr m) =
+  match find (fun e => String.eqb (fst e) m) c with
+  | Some (_, (t, va)) => Some (if tr then t else va)
+  | None => None
+  end.
+Proof.
+  induction c as [|[k [t va]] r IH]; intros tr m Hx; [reflexivity|].
+  cbn [custom_store dict_get find fst].
+  assert (Hk : forall b, String.eqb (solver_key b k) (solver_key b m) = String.eqb k m).
+  { intros b. unfold solver_key. destruct b; cbn; reflexivity. }
+  assert (Hneg : String.eqb (solver_key (negb tr) k) (solver_key tr m) = false) by (apply Hx; left; reflexivity).
+  destruct tr; cbn [negb] in Hneg.
+  - rewrite Hk. destruct (String.eqb k m); [reflexivity|]. rewrite Hneg. apply IH. intros k' Hk'. apply Hx. right. exact Hk'.
+  - rewrite Hneg, Hk. destruct (String.eqb k m); [reflexivity|]. apply IH. intros k' Hk'. apply Hx. right. exact Hk'.
+Qed.
+
+Lemma phases_differ : forall tr k m, String.eqb (solver_key (negb tr) k) (solver_key tr m) = false.
+Proof. intros tr k m. destruct tr; reflexivity. Qed.
+
+Theorem metric_recorded_spec : forall v tr m t va,
+  dict_has (store_of v) (callback_key tr m) = false ->
+  find (fun e => String.eqb (fst e) m) (v_custom v) = Some (m, (t, va)) ->
+  hist_of tr m v = Some (if tr then t else va).
+Proof.
+  intros v tr m t va H Hf. rewrite (metric_custom_spec v tr m H). unfold store_of. cbn [dict_get].
+  assert (E1 : String.eqb "train_loss" (solver_key tr m) = false) by (destruct tr; reflexivity).
+  assert (E2 : String.eqb "valid_loss" (solver_key tr m) = false) by (destruct tr; reflexivity).
+  rewrite E1, E2, custom_store_get by (intros; apply phases_differ). rewrite Hf. reflexivity.
+Qed.
+
+Example custom_metric_nonvacuous :
+  let v := mkView 2 2 2 [5; 5] [5; 5] [("mymetric"%string, ([3; 1], [0; 2]))] in
+  hist_of true "mymetric" v = Some [3; 1] /\ hist_of false "mymetric" v = Some [0; 2] /\
+  cond v (repeated_m (RUp 0) true "mymetric" 1) = true /\ cond v (repeated_m (RUp 0) false "mymetric" 1) = false /\
+  hist_of true "other" v = None.
+Proof. cbv zeta. repeat split. Qed.
+
 Lemma val_of_spec : forall t x, val_of (RBelow t) x = (x <? t) /\ val_of (RAbove t) x = (t <? x).
 Proof. intros t x. split; reflexivity. Qed.
 
 Example repeated_nonvacuous :
   fst (run_pred (repeated (RUp 0) true 2)
-         [mkView 1 1 2 [3; 2; 1] []; mkView 2 2 2 [0; 3; 2; 1] []; mkView 1 3 1 [2; 1; 0; 3; 2; 1] []]) = [true; false; true]
-  /\ cond (mkView 1 1 1 [0] []) (repeated (RBelow 1) true 1) = true.
+         [mkView 1 1 2 [3; 2; 1] [] []; mkView 2 2 2 [0; 3; 2; 1] [] []; mkView 1 3 1 [2; 1; 0; 3; 2; 1] [] []]) = [true; false; true]
+  /\ cond (mkView 1 1 1 [0] [] []) (repeated (RBelow 1) true 1) = true.
 Proof. split; reflexivity. Qed.
 
 (* ------------------------------------------------------------------------------------- *)
@@ -324,8 +390,8 @@ Qed.
 
 (* Everything the fit loop does with the stop flag, for every callback table, feed, mask,
    starting state and epoch budget. *)
-Lemma fit_loop_spec : forall feed von mask fuel e s cbs s' cbs' recs,
-  fit_loop feed von mask fuel e s cbs = (s', cbs', recs) ->
+Lemma fit_loop_spec : forall feed cfeed von mask fuel e s cbs s' cbs' recs,
+  fit_loop feed cfeed von mask fuel e s cbs = (s', cbs', recs) ->
   map c_act cbs' = map c_act cbs /\
   (length recs <= fuel)%nat /\
   (s_stop s = true -> recs = []) /\
@@ -336,7 +402,7 @@ Lemma fit_loop_spec : forall feed von mask fuel e s cbs s' cbs' recs,
      (e_stop r = true -> S i = length recs) /\
      (e_stop r = false -> (S i < fuel)%nat -> (S i < length recs)%nat)).
 Proof.
-  intros feed von mask. induction fuel as [|k IH]; intros e s cbs s' cbs' recs E.
+  intros feed cfeed von mask. induction fuel as [|k IH]; intros e s cbs s' cbs' recs E.
   - cbn [fit_loop] in E. injection E as E1 E2 E3. subst.
     split; [reflexivity|]. split; [cbn [length]; lia|]. split; [reflexivity|]. split; [lia|].
     intros i r Hr. destruct i; discriminate Hr.
@@ -344,13 +410,13 @@ Proof.
     + injection E as E1 E2 E3. subst.
       split; [reflexivity|]. split; [cbn [length]; lia|]. split; [reflexivity|]. split; [discriminate|].
       intros i r Hr. destruct i; discriminate Hr.
-    + destruct (run_cbs (run_epoch feed von e s) cbs mask 0) as [[s2 cbs2] fired] eqn:EC.
-      destruct (fit_loop feed von mask k (e + 1) s2 cbs2) as [[s3 cbs3] recs'] eqn:EF.
+    + destruct (run_cbs (run_epoch feed cfeed von e s) cbs mask 0) as [[s2 cbs2] fired] eqn:EC.
+      destruct (fit_loop feed cfeed von mask k (e + 1) s2 cbs2) as [[s3 cbs3] recs'] eqn:EF.
       injection E as E1 E2 E3. subst.
       destruct (run_cbs_inv _ _ _ _ _ _ _ EC) as (C1 & C2 & C3 & C4 & C5 & C6 & C7 & C8).
       destruct (IH _ _ _ _ _ _ EF) as (F1 & F2 & F3 & F4 & F5).
-      assert (R1 : s_local (run_epoch feed von e s) = e /\ s_global (run_epoch feed von e s) = s_global s + 1 /\
-                   s_max (run_epoch feed von e s) = s_max s /\ s_stop (run_epoch feed von e s) = false).
+      assert (R1 : s_local (run_epoch feed cfeed von e s) = e /\ s_global (run_epoch feed cfeed von e s) = s_global s + 1 /\
+                   s_max (run_epoch feed cfeed von e s) = s_max s /\ s_stop (run_epoch feed cfeed von e s) = false).
       { unfold run_epoch. destruct (feed (s_global s)) as [x y]. cbn. rewrite Estop. repeat split. }
       destruct R1 as (R1 & R2 & R3 & R4).
       split; [congruence|]. split; [cbn [length]; lia|]. split; [discriminate|]. split; [discriminate|].
@@ -373,8 +439,8 @@ Qed.
    K <= max_epochs; the stop flag at the end of an epoch is true iff a StopCallback's action ran
    in that epoch; an epoch that ended with the flag set is the last one; an epoch that ended
    with the flag clear and is not the max_epochs-th is followed by another one. *)
-Theorem stop_spec : forall feed von max_epochs mask s cbs s' cbs' recs,
-  fit feed von max_epochs mask s cbs = (s', cbs', recs) ->
+Theorem stop_spec : forall feed cfeed von max_epochs mask s cbs s' cbs' recs,
+  fit feed cfeed von max_epochs mask s cbs = (s', cbs', recs) ->
   Z.of_nat (length recs) <= Z.max 0 max_epochs /\
   (0 < max_epochs -> recs <> []) /\
   (forall i r, nth_error recs i = Some r ->
@@ -383,8 +449,8 @@ Theorem stop_spec : forall feed von max_epochs mask s cbs s' cbs' recs,
      (e_stop r = true -> S i = length recs) /\
      (e_stop r = false -> Z.of_nat (S i) < max_epochs -> (S i < length recs)%nat)).
 Proof.
-  intros feed von max_epochs mask s cbs s' cbs' recs E. unfold fit in E.
-  destruct (fit_loop_spec _ _ _ _ _ _ _ _ _ _ E) as (F1 & F2 & F3 & F4 & F5).
+  intros feed cfeed von max_epochs mask s cbs s' cbs' recs E. unfold fit in E.
+  destruct (fit_loop_spec _ _ _ _ _ _ _ _ _ _ _ E) as (F1 & F2 & F3 & F4 & F5).
   split; [lia|]. split.
   - intros Hm. apply F4; [reflexivity|lia].
   - intros i r Hr. destruct (F5 i r Hr) as (G1 & G2 & G3 & G4 & G5 & G6).
@@ -402,7 +468,7 @@ Qed.
    callbacks of the same epoch still run *)
 Example stop_nonvacuous :
   let cbs := [mkCb (period_local 3 0) AStop false; mkCb PTrue ARecord false] in
-  match fit (fun _ => (0, 0)) true 6 [true; true] (init_sst 0 0) cbs with
+  match fit (fun _ => (0, 0)) [] true 6 [true; true] (init_sst 0 0) cbs with
   | (_, _, recs) => map (fun r => (e_local r, e_fired r, e_stop r)) recs
   end = [(1, [1%nat], false); (2, [1%nat], false); (3, [0%nat; 1%nat], true)].
 Proof. reflexivity. Qed.
